@@ -35,6 +35,9 @@ WellFormedMarket(c) == c.named >= 1 \/ c.cand = 1
 NoCfg == [cand |-> 0, named |-> 0, rule |-> "none"]
 
 Worlds == {"block", "model"}
+(* world "block": how the solver object was configured before the block is parsed.  Whether invalid  *)
+(* names are refused must not depend on it.                                                        *)
+SolverOptions == {"default", "ctor_reduction_off", "attr_reduction_off", "ctor_reduction_on"}
 ValidKinds(w) == IF w = "block" THEN {"line_endo", "line_lag", "line_exo"}
                  ELSE {"country", "sector", "variable"}
 InvalidKinds(w) == IF w = "block" THEN {"reserved_lhs_endo", "reserved_lhs_lag", "reserved_lhs_exo", "reserved_rhs"}
@@ -55,15 +58,17 @@ MainOp(s) ==
     ELSE [s EXCEPT !.phase = "built", !.hasNumbers = TRUE]
 
 VARIABLES world, phase, err, hasNumbers, bad, invalidSeen,
+          opts,      \* solver options (world "block")
           decls      \* history: sequence of [kind, valid]
 
-vars == << world, phase, err, hasNumbers, bad, invalidSeen, decls >>
+vars == << world, phase, err, hasNumbers, bad, invalidSeen, opts, decls >>
 S == [world |-> world, phase |-> phase, err |-> err, hasNumbers |-> hasNumbers, bad |-> bad,
       invalidSeen |-> invalidSeen]
 SetS(s) == /\ world' = s.world /\ phase' = s.phase /\ err' = s.err /\ hasNumbers' = s.hasNumbers
            /\ bad' = s.bad /\ invalidSeen' = s.invalidSeen
 
-Init == /\ world \in Worlds /\ phase = "declaring" /\ err = FALSE /\ hasNumbers = FALSE
+Init == /\ world \in Worlds /\ opts \in (IF world = "block" THEN SolverOptions ELSE {"default"})
+        /\ phase = "declaring" /\ err = FALSE /\ hasNumbers = FALSE
         /\ bad = FALSE /\ invalidSeen = FALSE /\ decls = << >>
 
 marketSeen == \E i \in 1..Len(decls) : decls[i].kind = "market"
@@ -95,7 +100,7 @@ Next == \/ \E kind \in ValidKinds(world) : DeclareValid(kind)
         \/ \E c \in MarketCfgs : DeclareMarket(c)
         \/ Main
 
-Spec == Init /\ [][Next]_vars
+Spec == Init /\ [][Next /\ UNCHANGED opts]_vars
 
 TypeOK == /\ world \in Worlds /\ phase \in {"declaring", "rejected", "built"}
           /\ err \in BOOLEAN /\ hasNumbers \in BOOLEAN /\ bad \in BOOLEAN /\ invalidSeen \in BOOLEAN
